@@ -50,6 +50,11 @@ func H_C18_accept(gSel, pwLen, s1Len, s2Len int) {
 	gI := []int32{2, 3, 4, 5, 6, 7}[gSel]
 	aBytes := verifrt.Bytes(256)
 	srpB := verifrt.Bytes(256)
+	// feature hint: bit 0 = S has a leading zero byte, bit 1 = A has one. Symbolically it is tied to the
+	// reference values below, so a solver model names the feature its counterexample relies on; natively (where
+	// modexp is the real one, not the uninterpreted function of the model) the client secret a is stepped until
+	// the real S / A shows the feature, which turns "some input with a short S fails" into a concrete input.
+	hint := verifrt.Byte()
 	if !verifrt.Symbolic() {
 		// concrete vectors (differential validation): bend arbitrary bytes into the precondition; a solver
 		// model already satisfies it and is left untouched
@@ -68,6 +73,9 @@ func H_C18_accept(gSel, pwLen, s1Len, s2Len int) {
 	verifrt.Assume(B.Sign() != 0)
 	verifrt.Assume(B.Cmp(p) < 0)
 	g := big.NewInt(int64(gI))
+	if !verifrt.Symbolic() && hint&3 != 0 {
+		c18Search(hint, pw, s1, s2, P, g, srpB, aBytes)
+	}
 
 	mp := &ModPow{Salt1: s1, Salt2: s2, G: gI, P: P}
 	var ans *SrpAnswer
@@ -104,9 +112,55 @@ func H_C18_accept(gSel, pwLen, s1Len, s2Len int) {
 	ux.Add(ux, a)
 	S := new(big.Int).Exp(t, ux, p)
 	M1 := rH(rXor(rH(P), rH(rPad(g))), rH(s1), rH(s2), rPad(A), rPad(B), rH(rPad(S)))
+	if verifrt.Symbolic() {
+		var f byte
+		if len(S.Bytes()) < 256 {
+			f |= 1
+		}
+		if len(A.Bytes()) < 256 {
+			f |= 2
+		}
+		verifrt.Assume(hint&3 == f)
+	}
 	verifrt.Observe("M1", ans.M1)
 	verifrt.Assert(len(ans.M1) == 32, "M1-is-32-bytes")
 	verifrt.Assert(verifrt.SameBytes(ans.M1, M1), "M1-as-defined")
+}
+
+// c18Search steps the client secret (its low 16 bits) until the real S (hint bit 0) or else A (bit 1) starts
+// with a zero byte; gives up silently after 4096 steps.
+func c18Search(hint byte, pw string, s1, s2, P []byte, g *big.Int, srpB, aBytes []byte) {
+	p := rBig(P)
+	B := rBig(srpB)
+	x := rBig(rPH2([]byte(pw), s1, s2))
+	v := new(big.Int).Exp(g, x, p)
+	k := rBig(rH(P, rPad(g)))
+	kv := new(big.Int).Mul(k, v)
+	kv.Mod(kv, p)
+	t := new(big.Int).Sub(B, kv)
+	if t.Sign() < 0 {
+		t.Add(t, p)
+	}
+	for i := 0; i < 4096; i++ {
+		a := rBig(aBytes)
+		A := new(big.Int).Exp(g, a, p)
+		ok := false
+		if hint&1 != 0 {
+			u := rBig(rH(rPad(A), rPad(B)))
+			ux := new(big.Int).Mul(u, x)
+			ux.Add(ux, a)
+			ok = rPad(new(big.Int).Exp(t, ux, p))[0] == 0
+		} else {
+			ok = rPad(A)[0] == 0
+		}
+		if ok {
+			return
+		}
+		aBytes[255]++
+		if aBytes[255] == 0 {
+			aBytes[254]++
+		}
+	}
 }
 
 // H_C18_refuse: empty password gives the "no password" answer; an out-of-range server value is refused.
